@@ -251,7 +251,7 @@ pub open spec fn is_coeq(q: Seq<usize>, k: int, s: Seq<usize>, t: Seq<usize>, n:
 /// labels that agree on every identified pair are constant on the classes of a coequalizer
 pub proof fn lemma_labels_constant<T>(q: Seq<usize>, k: int, s: Seq<usize>, t: Seq<usize>, n: int, w: Seq<T>)
     requires is_coeq(q, k, s, t, n), w.len() == n, s.len() == t.len(),
-        forall|j: int| 0 <= j < s.len() ==> 0 <= s[j] < n && 0 <= t[j] < n && w[s[j] as int] == w[t[j] as int],
+        forall|j: int| 0 <= j < s.len() ==> 0 <= #[trigger] s[j] < n && 0 <= t[j] < n && w[s[j] as int] == w[t[j] as int],
     ensures forall|a: int, b: int| 0 <= a < n && 0 <= b < n && q[a] == q[b] ==> w[a] == w[b]
 {
     let r = |a: int, b: int| w[a] == w[b];
@@ -264,7 +264,7 @@ pub proof fn lemma_labels_constant<T>(q: Seq<usize>, k: int, s: Seq<usize>, t: S
 /// two coequalizers of the same pairs have the same kernel
 pub proof fn lemma_coeq_unique(q1: Seq<usize>, k1: int, q2: Seq<usize>, k2: int, s: Seq<usize>, t: Seq<usize>, n: int)
     requires is_coeq(q1, k1, s, t, n), is_coeq(q2, k2, s, t, n), s.len() == t.len(),
-        forall|j: int| 0 <= j < s.len() ==> 0 <= s[j] < n && 0 <= t[j] < n,
+        forall|j: int| 0 <= j < s.len() ==> 0 <= #[trigger] s[j] < n && 0 <= t[j] < n,
     ensures forall|a: int, b: int| 0 <= a < n && 0 <= b < n ==> ((q1[a] == q1[b]) <==> (q2[a] == q2[b]))
 {
     let r1 = |a: int, b: int| q1[a] == q1[b];
